@@ -155,6 +155,10 @@ def main():
     errors.extend(extra.get('errors', []))
     refuted = [o for o in all_obls if o['verdict'] == 'refuted']
     undecided = [o for o in all_obls if o['verdict'] == 'undecided']
+    # the solver budget is cut for an obligation already refuted on another path of the same function: when that
+    # refutation is a recorded finding, the cut instances belong to the same finding
+    undecided = [o for o in undecided if not ('budget cut' in o.get('backend', '')
+                                              and match_finding(findings['findings'], a.prop, o))]
     known, new = [], []
     for o in refuted:
         f = match_finding(findings['findings'], a.prop, o)
